@@ -496,4 +496,102 @@ theorem graphEdges_idem (d : Bool) (N : Nat) (c : List (Nat × Nat)) :
     · simp [hne]
     · simp [List.mem_filter, hp, hne]
 
+/-! ### `SpatialNetwork.Load` / `GeoNetwork.Load` of an igraph object somebody else wrote -/
+
+theorem attrOK_reordered {h h' : IGraphA} (hs : SimpleIG h) (hr : Reordered h h') (a : String) :
+    AttrOK h'.g.directed h'.g.edges h'.attrs a ((absOf h).V a) := by
+  show AttrOK h'.g.directed h'.g.edges h'.attrs a
+    ((h.attrs.get a).map (matOf h.g.directed h.g.edges))
+  rcases hr.attrs a with ⟨h1, h2⟩ | ⟨vs, vs', h1, h2, h3, h4⟩
+  · rw [h1]; exact h2
+  · rw [h1]
+    refine ⟨fun _ => ⟨vs', h2⟩, matOf h'.g.directed h'.g.edges vs', ?_, ?_⟩
+    · rw [h2]; exact linkAttr_netOf_some _ _ _
+    · intro i j
+      rw [hr.d, matOf_perm h.g.directed h.g.edges h'.g.edges vs vs' hs.simple
+        (hs.alen a vs h1) h4, rel_perm _ _ _ hr.edges]
+      cases hrel : rel h.g.directed h.g.edges i j with
+      | true => simp
+      | false => simp [matOf_not_rel _ _ _ _ _ hrel]
+
+
+/-- the weights `SpatialNetwork.Load` / `GeoNetwork.Load` end with: the stored ones, else the
+ones the constructor assigned (`geoW`), else ones -/
+def loadedWeights (N : Nat) (vw : Option (List Rat)) (geoW : Option (Option (List Rat))) : List Rat :=
+  match vw with
+  | some v => v
+  | none => match geoW with
+    | some x => weightsOf N x
+    | none => List.replicate N 1
+
+theorem loadViaAdjacency_simple (g : IGraph) (hN : 2 ≤ g.n) (hs : SimpleEdges g.directed g.edges)
+    (hw : ∀ w, g.vw = some w → w.length = g.n)
+    (gw : Option (Option (List Rat))) (hgw : ∀ x, gw = some (some x) → x.length = g.n) :
+    loadViaAdjacency g gw = .ok { ofGraph g.directed g.n (rel g.directed g.edges)
+        (loadedWeights g.n g.vw gw) none with graph := g.edges, eattr := g.ea, gvw := g.vw } := by
+  unfold loadViaAdjacency
+  simp only
+  have hadj : ofDenseMat g.n g.n (igAdj g) = ofDenseMat g.n g.n (ind (rel g.directed g.edges)) := by
+    apply ofDenseMat_congr
+    intro i j _ _
+    exact igAdj_simple g hs i j
+  rw [hadj, init_dense_none g.directed g.n hN (rel g.directed g.edges)]
+  simp only [bind, Except.bind]
+  have h1 : ∃ w1, assignWeights (ofGraph g.directed g.n (rel g.directed g.edges)
+        (List.replicate g.n 1) none) gw
+      = .ok (ofGraph g.directed g.n (rel g.directed g.edges) w1 none)
+      ∧ w1 = loadedWeights g.n none gw := by
+    cases gw with
+    | none => exact ⟨_, rfl, rfl⟩
+    | some x =>
+      refine ⟨weightsOf g.n x, ?_, rfl⟩
+      show setWeights _ x = _
+      apply setWeights_ofGraph
+      intro y hy; subst hy; exact hgw y rfl
+  obtain ⟨w1, h1, hw1⟩ := h1
+  rw [h1]
+  cases hv : g.vw with
+  | none =>
+    simp only [Option.map_none, assignWeights]
+    rw [hw1]
+    rfl
+  | some v =>
+    simp only [Option.map_some, assignWeights]
+    rw [setWeights_ofGraph g.directed g.n (rel g.directed g.edges) w1 none (some v) (fun x hx => by
+      simp only [Option.some.injEq] at hx; subst hx; exact hw v hv)]
+    rfl
+
+/-- `SpatialNetwork.Load` / `GeoNetwork.Load` of a simple igraph object with named attributes
+(edges in the object's own order): rebuilt from the dense adjacency matrix, the stored weights
+(else the constructor's) assigned, the graph object and its dictionary adopted -/
+theorem loadViaAdjacencyA_reprs_of (h : IGraphA) (hs : SimpleIG h)
+    (gw : Option (Option (List Rat))) (hgw : ∀ x, gw = some (some x) → x.length = h.g.n)
+    (σ : AbsA) (hd : h.g.directed = σ.d)
+    (hadj : ∀ i j, i < h.g.n → j < h.g.n → rel h.g.directed h.g.edges i j = σ.a i j)
+    (hw : loadedWeights h.g.n h.g.vw gw = σ.w) (hv : h.g.vw = σ.gvw)
+    (hattr : ∀ a, AttrOK h.g.directed h.g.edges h.attrs a (σ.V a)) :
+    ∃ x, loadViaAdjacencyA h gw = .ok x ∧ ReprsA x σ ∧ x.core.N = h.g.n
+      ∧ x.core.directed = h.g.directed ∧ x.core.graph = h.g.edges ∧ x.attrs = h.attrs := by
+  have hwl : (loadedWeights h.g.n h.g.vw gw).length = h.g.n := by
+    unfold loadedWeights
+    cases hvw : h.g.vw with
+    | some x => exact hs.wlen x hvw
+    | none =>
+      cases gw with
+      | none => simp
+      | some y =>
+        cases y with
+        | none => simp [weightsOf]
+        | some z => exact hgw z rfl
+  have hgood : Good h.g.directed h.g.n h.g.edges none h.g.vw (loadedWeights h.g.n h.g.vw gw) :=
+    ⟨hs.size, hs.simple, hs.noloop, hs.range, hwl, (fun _ h => by cases h), hs.wlen⟩
+  have hload : loadViaAdjacency { h.g with ea := none } gw
+      = .ok (form h.g.directed h.g.n h.g.edges none h.g.vw (loadedWeights h.g.n h.g.vw gw)) :=
+    loadViaAdjacency_simple { h.g with ea := none } hs.size hs.simple hs.wlen gw hgw
+  refine ⟨⟨form h.g.directed h.g.n h.g.edges none h.g.vw (loadedWeights h.g.n h.g.vw gw), h.attrs⟩,
+    ?_, reprsA_form hgood hd hadj hw hv hattr, rfl, rfl, rfl, rfl⟩
+  unfold loadViaAdjacencyA
+  rw [hload]
+  rfl
+
 end Pyunicorn.Repr
